@@ -32,7 +32,8 @@ def run(prog, chk):
     chk.rule('R04.3', 'on exit every amplitude with the target bit set is zero')
     chk.rule('R04.4', 'one reset implementation: all evaluator resets call it; no other function clears a subspace')
     sim = R.sim_classify()
-    rs = sim['reset']
+    from ..knorm import normalise
+    rs = normalise(prog, sim['reset'])      # helpers (branch weights, the draw, range checks) inlined; see K-NORM
     amp = R.amp_field
     q = rs.params[0]
     stmts = rs.body['body']
@@ -46,7 +47,7 @@ def run(prog, chk):
     for s in stmts:
         if s['k'] == 'decls':
             for v in s['d']:
-                t = v['type']
+                t = v['type'][6:] if v['type'].startswith('const ') else v['type']
                 if t in ('unsigned long', 'size_t'):
                     try:
                         term = F.fold(v['init'])
@@ -290,7 +291,7 @@ def run(prog, chk):
     # no other simulator method zeroes amplitudes wholesale
     other = []
     for f in R.sim_methods():
-        if f in (rs, sim['measure'], sim['allocate']) or not f.body:
+        if f in (rs, sim['reset'], sim['measure'], sim['allocate']) or not f.body:
             continue
         for n in SX.walk(f.body):
             w = SX.write_target(n)
